@@ -88,6 +88,8 @@ Section Routing.
       msorted m -> recipients (route services msg) m = mcrew_rule services (map fst m) msg.
   Proof.
     intros m msg Hs. unfold route, mcrew_rule.
+    (* the key the containers look at (Gen/Names.v) is the key of the documented rule *)
+    change mcrew_route_key with "to".
     destruct msg as [| b | z | s | l | kvs]; try reflexivity.
     destruct (assoc "to" kvs) as [[| b | z | s | l | kvs'] |]; try reflexivity.
     destruct (existsb (String.eqb s) services); [reflexivity|]. cbn [recipients].
@@ -287,4 +289,57 @@ Proof.
                    (fd_log (feed_m [0] (submit d12_msg (mk_svc d12_crew d12_crew true)))))
     by (vm_compute; left; reflexivity).
   specialize (H Hs Hin). vm_compute in H. discriminate H.
+Qed.
+
+(** ---- the names the model routes by ---------------------------------------------
+    [mcrew_services], [mdb_services] and the key [route] looks at are read
+    from the source of the tree under test (Gen/Names.v: the case labels of
+    the switch in Service.Route / Host.Route and the literal of the one map
+    index).  They are the documented ones (Spec/MCrewSpec.v), as sets: the
+    order of the case clauses does not matter.  An edit of a label or of the
+    key in the source changes Gen/Names.v and this proof (and
+    [recipients_rule] above) no longer goes through. *)
+Theorem reserved_names_documented :
+  (forall s, In s mcrew_services <-> In s documented_services)
+  /\ mdb_services = documented_mdb_services
+  /\ mcrew_route_key = "to"
+  /\ mdb_route_key = mcrew_route_key.
+Proof.
+  split; [|repeat split; reflexivity].
+  intros s. unfold mcrew_services, mcrew_route_services, documented_services. simpl. tauto.
+Qed.
+
+Lemma existsb_eqb_set : forall (a b : list string) s,
+    (forall x, In x a <-> In x b) ->
+    existsb (String.eqb s) a = existsb (String.eqb s) b.
+Proof.
+  intros a b s H.
+  destruct (existsb (String.eqb s) a) eqn:Ea, (existsb (String.eqb s) b) eqn:Eb; try reflexivity.
+  - apply existsb_exists in Ea. destruct Ea as [x [Hx Ex]]. apply String.eqb_eq in Ex. subst x.
+    apply H in Hx. assert (T : existsb (String.eqb s) b = true)
+      by (apply existsb_exists; exists s; split; [exact Hx | apply String.eqb_refl]).
+    congruence.
+  - apply existsb_exists in Eb. destruct Eb as [x [Hx Ex]]. apply String.eqb_eq in Ex. subst x.
+    apply H in Hx. assert (T : existsb (String.eqb s) a = true)
+      by (apply existsb_exists; exists s; split; [exact Hx | apply String.eqb_refl]).
+    congruence.
+Qed.
+
+(** hence the model routes, and the two rules address, exactly as with the documented names *)
+Theorem route_by_documented_names : forall ids msg,
+    route mcrew_services msg = route documented_services msg
+    /\ mcrew_rule mcrew_services ids msg = mcrew_rule documented_services ids msg
+    /\ addressed mcrew_services ids msg = addressed documented_services ids msg.
+Proof.
+  intros ids msg. destruct reserved_names_documented as [H _].
+  unfold route, mcrew_rule, addressed.
+  (* no conversion of [mcrew_services] with [documented_services]: only the set equality [H] is used *)
+  destruct msg as [| b | z | s | l | kvs];
+    [repeat split; reflexivity .. | ].
+  change mcrew_route_key with "to".
+  destruct (assoc "to" kvs) as [[| b | z | s | l | kvs'] |];
+    [repeat split; reflexivity | repeat split; reflexivity | repeat split; reflexivity |
+     | repeat split; reflexivity | repeat split; reflexivity | repeat split; reflexivity].
+  rewrite (existsb_eqb_set mcrew_services documented_services s H).
+  repeat split; reflexivity.
 Qed.
